@@ -153,6 +153,33 @@ Theorem C12_cell_card_max_zero :
 Proof. exact cell_card_zero_iff. Qed.
 Print Assumptions C12_cell_card_max_zero.
 
+(* any card, explicit or LIKE n BUT (chains included): with o the options the
+   LIKE chain resolves to (base options first, BUT options appended), the cell
+   is skipped iff EVERY IMP keyword met in o gives zero - a BUT importance can
+   only keep or raise the importance of the card it is LIKE *)
+Theorem C12_chain_max_zero :
+  forall (P : prims R) (imp_cards : list (string * list string)) (cards : list card)
+         (lats : list (Z * list (Z * Z))) (cells : list (Z * cell (T:=R))) (skipped : list Z)
+         (r : nat) (key : Z) (b : body) (opts mat geom o : string) (xs : list R),
+    parse_cells RS P imp_cards cards lats = Ok (cells, skipped) ->
+    nth_error (dict_of Z.eqb cards) r = Some (key, (b, opts)) ->
+    resolve_like (S (List.length (dict_of Z.eqb cards))) (dict_of Z.eqb cards) b opts = Ok (mat, geom, o) ->
+    opt_imps RS P (option_tokens o) xs -> xs <> [] -> nonneg xs ->
+    (In key skipped <-> all_zero xs).
+Proof. exact chain_zero_iff. Qed.
+Print Assumptions C12_chain_max_zero.
+
+(* the writer's test "key in skipped_cells" never fires on a converted cell:
+   the two filters agree *)
+Theorem C12_conv_keys_not_skipped :
+  forall (T : Type) (Sc : Scalar T) (P : prims T) (imp_cards : list (string * list string))
+         (cards : list card) (lats : list (Z * list (Z * Z)))
+         (cells : list (Z * cell (T:=T))) (skipped : list Z) (key : Z),
+    parse_cells Sc P imp_cards cards lats = Ok (cells, skipped) ->
+    In key (conv_keys Sc cells) -> ~ In key skipped.
+Proof. exact @conv_keys_not_skipped. Qed.
+Print Assumptions C12_conv_keys_not_skipped.
+
 (* ---- where the model (= the code) departs from the property ---- *)
 
 (* "2 LIKE 1 BUT IMP:N=0" with "1 0 -1 IMP:N=1": the card's own importance is
@@ -241,4 +268,16 @@ Proof.
     cbn [skipn]. apply oi_imp; [reflexivity|reflexivity|].
     apply oi_imp; [reflexivity|reflexivity|apply oi_nil].
   - eexists. split; [rcompute; reflexivity|rcompute; reflexivity].
+Qed.
+
+(* the hypotheses of C12_chain_max_zero on the LIKE witness: the chain resolves
+   to the base options followed by the BUT options, whose IMP values are 1, 0 *)
+Example C12_example_like :
+  resolve_like (S (List.length (dict_of Z.eqb like_deck))) (dict_of Z.eqb like_deck) (Like 1) "imp:n=0"
+  = Ok ("0", "-1", "imp:n=1 imp:n=0") /\
+  opt_imps RS wP (option_tokens "imp:n=1 imp:n=0") [1; 0]%R.
+Proof.
+  split; [reflexivity|].
+  change (option_tokens "imp:n=1 imp:n=0") with ["imp:n"; "1"; "imp:n"; "0"].
+  apply oi_imp; [reflexivity|reflexivity|]. apply oi_imp; [reflexivity|reflexivity|apply oi_nil].
 Qed.
